@@ -168,7 +168,8 @@ func leafVariants() []leafDoc {
 
 // attrSweepDocs: every component in its legal context with every one of its attributes set to a typed non-default value — one
 // attribute at a time and every pair of attributes (markup paths are chosen by attribute combinations: href with usemap,
-// background-url with full-width, height with mode, …)
+// background-url with full-width, height with mode, …); link and image attributes also with a blank value, background
+// sizes / positions also with one value, two values, keywords
 func attrSweepDocs() []leafDoc {
 	var out []leafDoc
 	for _, tag := range bodyTags {
@@ -188,6 +189,14 @@ func attrSweepDocs() []leafDoc {
 			avs = append(avs, av{a[0], v1})
 			if strings.HasPrefix(a[1], "enum(") && v2 != v1 {
 				avs = append(avs, av{a[0], v2})
+			}
+			// values that select other markup paths than the typical one: a blank address (written, but nothing to link to),
+			// background sizes / positions with two values, with one, with keywords
+			for _, ev := range map[string][]string{
+				"href": {" "}, "background-size": {"100% 50%", "600px 200px", "auto", "50%"}, "background-position": {"10% 20%", "left", "center center"},
+				"background-repeat": {"repeat"}, "src": {" "}, "title": {" "}, "alt": {" "},
+			}[a[0]] {
+				avs = append(avs, av{a[0], ev})
 			}
 		}
 		// all attributes at once (first value of each)
